@@ -37,6 +37,13 @@ func runC19(c *Ctx) {
 	r.Rule("R19-panic", "every explicit panic reachable from the text entry points is unreachable by argument: the values passed at every call site lie in the handled set", 1)
 	r.Rule("R19-move", "Engine.Move mutates the game only by PushMove of a generated move that Equals the parsed text; Equals compares origin, destination and promotion; every error is returned without a successful push; ParseMove accepts only 4 or 5 runes and rejects pawn/king promotions", 5)
 
+	r.Rule("R19-alphabet", "the single-rune readers behind ParseMove/ParseSquare/fen.Decode (files, ranks, pieces) accept exactly the standard alphabet - whatever form they are written in, every accepting path confines the rune to it", 16+8+12+12+4)
+	c.guard("R19-alphabet", func() {
+		in := newInterp(c.P)
+		for _, sp := range alphabetSpecs(c, "R19-alphabet", true) {
+			checkRuneParser(c, in, "R19-alphabet", sp)
+		}
+	})
 	c.guard("R19-err", func() { c19Err(c) })
 	c.guard("R19-square", func() { c19Square(c) })
 	c.guard("R19-index", func() { c19Index(c) })
